@@ -105,8 +105,9 @@ func (p *Prog) isRepoPkg(path string) bool {
 var initAllowList = map[string]bool{
 	"unicode/utf8": true, "strings": true, "sort": true, "slices": true, "maps": true, "cmp": true,
 	"errors": true, "github.com/shopspring/decimal": true, "strconv": true, "math/bits": true,
-	"go.lsp.dev/protocol": false, "path/filepath": false, "io": true, "unicode/utf16": true,
-	"bytes": true, "math": true,
+	"io": true, "unicode/utf16": true,
+	"bytes": true, "math": true, "context": true, "io/fs": true, "os": true, "path/filepath": true, "path": true,
+	"go.lsp.dev/protocol": true, "go.lsp.dev/uri": true, "encoding/json": false,
 }
 
 func (p *Prog) initAllowed(path string) bool {
